@@ -19,11 +19,11 @@ ASSUMPTIONS = ['both axes imply one propagation wavelength (isotropic dx*du, or 
 PLAN = {'quick': {'gen': 8}, 'thorough': {'gen': 16, 'tests': 1, 'docs': 1}}
 REQUIRED_BUCKETS = ['grid:even', 'grid:odd', 'pupil:even', 'pupil:odd', 'pupil-parity!=grid-parity', 'os=1', 'os=2', 'os=3',
                     'shape:none', 'shape:explicit', 'aniso', 'scratch:exact', 'scratch:larger', 'scratch:dirty',
-                    'scratch:too-small', 'shape:too-large', 'tilted', 'dir:image->pupil', 'segmented', 'segmented:bbox-overlap', 'scratch:non-finite']
+                    'scratch:too-small', 'shape:too-large', 'tilted', 'dir:image->pupil', 'segmented', 'segmented:bbox-overlap', 'scratch:non-finite', 'canvas', 'shape:small-int', 'scalars:float32']
 REQUIRED_ANCHORS = ['anchor:_fft_shape', 'anchor:_fft2', 'anchor:_has_tilt', 'anchor:scratch_shape', 'probe:propagate_fft',
                     'probe:propagate_dft']
 REQUIRED_ORACLES = ['fft=dft', 'fft=model', 'scratch=transparent', 'scratch:exact-accepted', 'scratch:too-small-refused',
-                    'shape:too-large-refused', 'tilt-refused', 'fft:meta', 'fft=fraunhofer']
+                    'shape:too-large-refused', 'tilt-refused', 'fft:meta', 'fft=fraunhofer', 'fft:canvas']
 
 
 def anchors(lentil):
@@ -65,6 +65,14 @@ def workload(ctx, lentil):
         aniso = rng.random() < 0.3
         G[1] = int(rng.integers(6, gmax + 1)) if aniso else G[0]
         pshape = (int(rng.integers(2, G[0] + 1)), int(rng.integers(2, G[1] + 1)))
+        small_int = i % 11 == 4
+        if small_int:
+            # a grid of more than 127 samples and the output shape handed over as int8: the shape fits, shape * oversample does not
+            os_ = int(rng.integers(2, 4))
+            G = [int(rng.integers(130, 150))] * 2
+            aniso = False
+            pshape = (int(rng.integers(2, 25)), int(rng.integers(2, 25)))
+        narrow = i % 7 == 2 and not aniso
         if rng.random() < 0.4:
             m = min(pshape)
             pshape = (m, m)
@@ -95,6 +103,11 @@ def workload(ctx, lentil):
             shape = None
         else:
             shape = (int(rng.integers(1, maxshape[0] + 1)), int(rng.integers(1, maxshape[1] + 1)))
+        if small_int:
+            shape = (maxshape[0] - int(rng.integers(0, 3)), maxshape[1] - int(rng.integers(0, 3)))
+        if narrow:
+            # the same system with its scalars held in single precision (1/alpha moves by 1e-7 at most: the same grid)
+            wl, z, dx, du = (float(np.float32(v)) for v in (wl, z, dx, du))
         bks = ['grid:even' if G[0] % 2 == 0 else 'grid:odd', 'pupil:even' if pshape[0] % 2 == 0 else 'pupil:odd', f'os={os_}',
                'shape:none' if shape is None else 'shape:explicit']
         if pshape[0] % 2 != G[0] % 2 or pshape[1] % 2 != G[1] % 2:
@@ -113,6 +126,10 @@ def workload(ctx, lentil):
             if len(segs) > 1 and gen.bboxes_overlap(segs):
                 ctx.bucket('segmented:bbox-overlap')
         back = i % 5 == 3
+        wl_f, z_f, dx_f = wl, z, dx
+        if narrow:
+            wl, z, dx = np.float32(wl), np.float32(z), np.float32(dx)
+            ctx.bucket('scalars:float32')
         if back:
             # the other direction: an image-plane wavefront taken (back) to a pupil - the same forward kernel for both propagators
             ctx.bucket('dir:image->pupil')
@@ -122,11 +139,15 @@ def workload(ctx, lentil):
         kw = dict(oversample=os_)
         if shape is not None:
             kw['shape'] = shape
+        if small_int:
+            kw['shape'] = np.array(shape, dtype=np.int8) if i % 2 else tuple(np.int8(v) for v in shape)
+            ctx.bucket('shape:small-int')
         try:
-            of = lentil.propagate_fft(w, du, **kw)
+            of = lentil.propagate_fft(w, np.float32(du) if narrow else du, **kw)
         except Exception as e:
             ctx.check(False, 'fft=dft', f'fft|raises={type(e).__name__}', f'propagate_fft raised {type(e).__name__}: {e}', desc)
             continue
+        wl, z, dx = wl_f, z_f, dx_f
         S = tuple(int(x) for x in of.shape)
         expS = (G[0], G[1]) if shape is None else (shape[0] * os_, shape[1] * os_)
         wl_rep = float(of.wavelength)
@@ -161,6 +182,19 @@ def workload(ctx, lentil):
             r0, r1, c0, c1 = m['window']
             ctx.close('fft=model', ff[r0:r1 + 1, c0:c1 + 1], m['ref'], 1.0, f'fft-vs-model|grid={par}',
                       'FFT propagation differs from the Fraunhofer sum at the wavelength it reports', desc, scale=tol)
+
+        # the returned wavefront IS the field on its S output samples: placed on a larger canvas it lights the same samples
+        # as the DFT result does (nothing of the FFT grid beyond the requested shape travels along)
+        try:
+            with probe.quiet():
+                big = (S[0] + 6, S[1] + 4)
+                ia, ib = of.insert(np.zeros(big)), od.insert(np.zeros(big))
+            ctx.bucket('canvas')
+            ctx.close('fft:canvas', ia, ib, 1e-9, 'fft|canvas' + ('' if shape is None else '|shape-explicit'),
+                      'FFT result placed on a larger canvas differs from the DFT result placed there (samples outside the output shape kept)',
+                      desc, scale=max(float(np.max(ib)), 1e-300))
+        except Exception as e:
+            ctx.check(False, 'fft:canvas', f'fft|canvas|raises={type(e).__name__}', str(e), desc)
 
         # ---- scratch ---------------------------------------------------------------
         mode = i % 4
